@@ -472,6 +472,7 @@ class MolGraph:
         neighbors = {
             mapping.get(atom, atom): {mapping.get(n, n) for n in neighbors}
             for atom, neighbors in self._neighbors.items()
+            if atom in self._atom_attrs
         }
 
         bond_attrs = {
